@@ -7,18 +7,28 @@
     (i) wake_up starts with a hardware reset from every such field valuation, so the controller
         state after the suffix does not depend on what the failed call left behind (generic lemma
         [suffix_forgets]);
-    (ii) for every state [s] of the closed reachable set, every macro step [m] that changes no
-        setting, and every field valuation [d] a call of [m] can be interrupted in, the suffix run
-        from [d] leaves the controller registers, power state and image burst equal to those of the
-        same suffix on the never-failed driver (fields [v_d s]).  By kernel computation. *)
+    (ii) for every state [s] of the closed reachable set, every macro step [m] and every field
+        valuation [d] a call of [m] can be interrupted in, the suffix run from [d] leaves the
+        controller registers, power state and image burst equal to those of the same suffix on the
+        driver on which [m] completed without a failure.  By kernel computation. *)
 From Coq Require Import List NArith Bool.
 From EPD Require Import Iface Ops Ctl.Ctl Spec.PSpec Spec.Checks Spec.Sys Spec.Hist Spec.Oracle Spec.Verdict Panels.
 Import ListNotations.
 Open Scope N_scope.
 
-(** field valuations at which a call with item trace [t], entered with fields [d], can stop *)
-Definition fields_of_trace (d : dstate) (t : list item) : list dstate :=
-  d :: flat_map (fun i => match i with ISet d' => [d'] | _ => [] end) t.
+(** field valuations at which a call with item trace [t], entered with fields [d], can stop: the fields in force
+    at each transport call that performs SPI transfers (a failure happens at a transfer; busy waits, delays and
+    the reset cannot fail) *)
+Definition can_fail (i : icall) : bool :=
+  match i with ICmd _ | IData _ | IDataEach _ _ _ | IDataX _ _ | IWaitCmd _ _ => true | _ => false end.
+Fixpoint fields_at_transfers (d : dstate) (t : list item) : list dstate :=
+  match t with
+  | [] => []
+  | ISet d' :: r => fields_at_transfers d' r
+  | ICall i :: r => (if can_fail i then [d] else []) ++ fields_at_transfers d r
+  | IPanic :: _ => []
+  end.
+Definition fields_of_trace (d : dstate) (t : list item) : list dstate := fields_at_transfers d t.
 
 Definition is_setting (o : op) : bool :=
   match o with OSetLut _ | OSetRefresh _ | OSetBg _ | OSetBorder _ => true | _ => false end.
@@ -87,6 +97,10 @@ Fixpoint macro_fields (s : vstate) (m : list op) : list dstate :=
       end
   end.
 
+(** the fields after the whole macro step completed (the driver that never failed) *)
+Definition macro_done (s : vstate) (m : list op) : option dstate :=
+  match fst (vmacro D PP isig lr0 lr1 0 s m) with Some s1 => Some (v_d s1) | None => None end.
+
 Definition dpair_eqb (a b : dstate * dstate) : bool :=
   (if dstate_eq_dec (fst a) (fst b) then true else false) && (if dstate_eq_dec (snd a) (snd b) then true else false).
 Definition dedup_pairs (l : list (dstate * dstate)) : list (dstate * dstate) :=
@@ -96,7 +110,10 @@ Definition dedup_pairs (l : list (dstate * dstate)) : list (dstate * dstate) :=
     change no setting (a failed setting change may or may not have taken effect: no unique reference) *)
 Definition pairs (R : list vstate) : list (dstate * dstate) :=
   dedup_pairs (flat_map (fun s =>
-    flat_map (fun m => if existsb is_setting m then [] else map (fun d => (d, v_d s)) (macro_fields s m)) alpha) R).
+    flat_map (fun m => match macro_done s m with
+                       | Some d1 => map (fun d => (d, d1)) (macro_fields s m)
+                       | None => []
+                       end) alpha) R).
 
 Definition effects_eqb (a b : list effect) : bool :=
   (* compare the image bursts and refreshes: command, geometry / area, payload *)
@@ -220,16 +237,16 @@ Proof.
   intros p H. apply G. now left.
 Qed.
 
-(** For every state of the set, every macro step that changes no setting and every field valuation a
-    call of that step can be interrupted in: wake_up begins with a hardware reset, and the recovery
-    suffix ends with the same addressing/power registers and the same image burst and refresh as on
-    the never-failed driver. *)
+(** For every state of the set, every macro step and every field valuation a call of that step can be
+    interrupted in (the fields in force at any of its SPI-transferring transport calls): wake_up begins with
+    a hardware reset, and the recovery suffix ends with the same addressing/power registers and the same
+    image burst and refresh as on the driver on which the same macro step completed without a failure. *)
 Theorem recover_ok_spec R : recover_ok D PP isig lr0 lr1 alpha R = true ->
-  forall s m d, In s R -> In m alpha -> existsb is_setting m = false ->
-  In d (macro_fields D PP isig lr0 lr1 s m) -> pair_ok D PP (d, v_d s) = true.
+  forall s m d d1, In s R -> In m alpha -> macro_done D PP isig lr0 lr1 s m = Some d1 ->
+  In d (macro_fields D PP isig lr0 lr1 s m) -> pair_ok D PP (d, d1) = true.
 Proof.
-  intros OK s m d Hs Hm Hset Hd. unfold recover_ok in OK. rewrite forallb_forall in OK. apply OK.
+  intros OK s m d d1 Hs Hm Hdone Hd. unfold recover_ok in OK. rewrite forallb_forall in OK. apply OK.
   unfold pairs. apply dedup_pairs_in. apply in_flat_map. exists s. split; [assumption|].
-  apply in_flat_map. exists m. split; [assumption|]. rewrite Hset. apply in_map_iff. exists d. now split.
+  apply in_flat_map. exists m. split; [assumption|]. rewrite Hdone. apply in_map_iff. exists d. now split.
 Qed.
 End Meaning.
